@@ -124,6 +124,7 @@ from ..number import (
     MPBFloatContext,
     MPFixedContext,
     MPSFloatContext,
+    OverflowMode,
     RealFloat,
     RoundingMode,
 )
@@ -298,6 +299,11 @@ class _Prober:
         far apart stand in for the check; a format whose answer varies between
         them is declined rather than silently mis-lowered.
         """
+        if getattr(self.ctx, 'overflow', None) is OverflowMode.WRAP:
+            # a wrapped overflow depends on the operand, and the two probes
+            # can still coincide: where the number of values divides
+            # 2**63 - 1 (sign-magnitude formats of 3, 7, 9, 21 and 63 bits)
+            return None
         try:
             near = [self.ctx.round(shift(b, 1)) for b in (maxval, neg_maxval)]
             far = [self.ctx.round(shift(b, 64)) for b in (maxval, neg_maxval)]
